@@ -282,6 +282,17 @@ func (s *State) load(lv *lvalue) *Value {
 		s.assumeLoaded(v)
 		if n, ok := finalGlobalLen[lv.prefix]; ok && v.K == VSlice {
 			s.assume(Eq(v.Len, mkInt(n)))
+			if es, ok := finalGlobalElems[lv.prefix]; ok {
+				// NOTE: element facts are about the current heap; they are only recorded for slices whose
+				// elements are never assigned in the package (checked syntactically at load time)
+				cls := elemClass(types.Typ[types.String])
+				as := SArray(SInt, SString)
+				noteClass(cls, as, false)
+				inner := Select(s.heapArr(cls, as), v.Arr)
+				for i, e := range es {
+					s.assume(Eq(Select(inner, mkInt(int64(i))), mkStr(e)))
+				}
+			}
 		}
 		if finalGlobalNonNil[lv.prefix] && v.K == VIface {
 			s.assume(Neq(v.Typ, mkInt(0)), Neq(v.S, mkInt(0)))
